@@ -316,11 +316,68 @@ mod probes {
         }
     }
 
+
+    // ------------------------------------------------------------------------------- C15
+    mod c15 {
+        use super::*;
+        use crate::corrupt::*;
+        use crate::unicode::CS;
+        use std::borrow::Cow;
+
+        /// context providers at every position of `word`, including start and end: must not panic, and must look up
+        /// (previous character or <bow>, character or <eow>[, next character or <eow>])
+        pub fn check(word: &str, g: bool) -> Result<(), String> {
+            let cs = CS::new(word, g);
+            let chars: Vec<&str> = (0..cs.len()).map(|i| cs.get(i).unwrap()).collect();
+            let at = |k: isize| -> &str { if k < 0 { "<bow>" } else if k as usize >= chars.len() { "<eow>" } else { chars[k as usize] } };
+            for idx in 0..=chars.len() {
+                // a table that contains exactly the expected context
+                let mut ins = HashMap::new();
+                ins.insert((Cow::Owned(at(idx as isize - 1).to_string()), Cow::Owned(at(idx as isize).to_string())), (vec!["x".to_string()], vec![1.0]));
+                let ie = InsertEdits { insertions: ins };
+                let r = std::panic::catch_unwind(std::panic::AssertUnwindSafe(|| ie.get_edits(&cs, &idx).is_some()));
+                match r {
+                    Err(_) => return Err(format!("InsertEdits::get_edits panics for word {word:?} at position {idx}")),
+                    Ok(false) => return Err(format!("InsertEdits::get_edits({word:?}, {idx}) does not look up the context ({:?}, {:?})", at(idx as isize - 1), at(idx as isize))),
+                    Ok(true) => {}
+                }
+                if idx < chars.len() {
+                    let mut rep = HashMap::new();
+                    rep.insert((Cow::Owned(at(idx as isize - 1).to_string()), Cow::Owned(at(idx as isize).to_string()), Cow::Owned(at(idx as isize + 1).to_string())), (vec!["x".to_string()], vec![1.0]));
+                    let re = ReplaceEdits { replacements: rep };
+                    let r = std::panic::catch_unwind(std::panic::AssertUnwindSafe(|| re.get_edits(&cs, &idx).is_some()));
+                    match r {
+                        Err(_) => return Err(format!("ReplaceEdits::get_edits panics for word {word:?} at position {idx}")),
+                        Ok(false) => return Err(format!("ReplaceEdits::get_edits({word:?}, {idx}) does not look up the right context")),
+                        Ok(true) => {}
+                    }
+                }
+            }
+            Ok(())
+        }
+
+        pub fn replay(input: &Value) -> Result<(), String> {
+            check(input["word"].as_str().ok_or("word")?, input["use_graphemes"].as_bool().unwrap_or(true))
+        }
+
+        pub fn search() -> Option<(Value, String)> {
+            for w in ["", "a", "ab", "a\u{308}b", "abc"] {
+                for g in [true, false] {
+                    if let Err(e) = check(w, g) {
+                        return Some((json!({"word": w, "use_graphemes": g}), e));
+                    }
+                }
+            }
+            None
+        }
+    }
+
     fn dispatch_replay(prop: &str, input: &Value) -> Result<(), String> {
         match prop {
             "C04" => c04::replay(input),
             "C12" => c12::replay(input),
             "C07" => c07::replay(input),
+            "C15" => c15::replay(input),
             _ => Err(format!("no probe for {prop}")),
         }
     }
@@ -330,6 +387,7 @@ mod probes {
             "C04" => c04::search(),
             "C12" => c12::search(),
             "C07" => c07::search(),
+            "C15" => c15::search(),
             _ => None,
         }
     }
